@@ -812,8 +812,13 @@ def alt_fn_name(t, tok):
 def alt_inline_expr(t, tok):
     """the placeholder is bound to a `match` written in place (the helper inlined): that expression"""
     b = tpl.binding(t, tok.ph)
-    if b is not None and b[0] == "let" and b[1] is not None and b[1].get("k") == "Match":
-        return b[1]
+    e = b[1] if b is not None and b[0] == "let" else None
+    # (a block that binds a few names and ends in the match — what an inlined helper with renamed parameters reads as)
+    while e is not None and e.get("k") == "BlockExpr" and e["block"]["stmts"] and e["block"]["stmts"][-1].get("k") == "ExprStmt" and not e["block"]["stmts"][-1].get("semi") \
+            and all(st.get("k") == "Let" for st in e["block"]["stmts"][:-1]):
+        e = e["block"]["stmts"][-1]["expr"]
+    if e is not None and e.get("k") == "Match":
+        return e
     return None
 
 
